@@ -21,9 +21,13 @@
 //	    the configured profile as this harness computes them>"; anchored: the first token is not earlier
 //	    than (instant just before the first Next) + its configured offset (and within 200 ms of it).
 //
-//	start <perinst 0|1> <T> <rps-spec> <A> <K> <startup-spec> <shoot_us> <cancel_ms> <failgun> <provrun>
+//	start <perinst 0|1> <T> <rps-spec> <A> <K> <startup-spec> <shoot_us> <cancel_ms> <failgun> <provrun> [<slow>]
 //	    runs the real engine.Engine (one pool). T = tokens of one rps profile (-1: not finite),
-//	    A = ammo items, K = tokens of the startup profile, cancel_ms > 0: the run context is
+//	    A = ammo items: "<n>" n items (non-nil values), "n<n>" n items whose value is nil (a provider for
+//	    guns that need no ammo hands out (nil, true)), "d" the real core/provider.Dummy (nil ammo, never
+//	    runs out); slow (optional, default 0) = "g<ms>" | "b<ms>": creating the FIRST instance takes that
+//	    long (NewGun / gun.Bind sleeps) - that creation is synchronous in the start loop, so the startup
+//	    tokens behind it are handed out late.  K = tokens of the startup profile, cancel_ms > 0: the run context is
 //	    cancelled after that many ms, failgun = k > 0: the k-th NewGun call fails (1 = the warm-up
 //	    gun, 2 = the first instance, ...); b<k>: Bind of the gun made by the k-th NewGun call fails;
 //	    s<k>: the k-th call of the RPS schedule factory fails (per instance profiles: creation number
@@ -64,6 +68,7 @@ import (
 	"github.com/yandex/pandora/core/aggregator/netsample"
 	"github.com/yandex/pandora/core/coreutil"
 	"github.com/yandex/pandora/core/engine"
+	coreprovider "github.com/yandex/pandora/core/provider"
 	"github.com/yandex/pandora/core/schedule"
 	"github.com/yandex/pandora/lib/monitoring"
 	"go.uber.org/zap"
@@ -79,6 +84,7 @@ type provider struct {
 	ammoOut atomic.Bool
 	cause   *causeClock
 	runMode int
+	nilAmmo bool // the items are nil values (ammo-less guns): (nil, true) is an item, not the end
 }
 
 // instant of the first event that makes the engine cancel instance start
@@ -118,6 +124,9 @@ func (p *provider) Acquire() (core.Ammo, bool) {
 		return nil, false
 	}
 	p.left--
+	if p.nilAmmo {
+		return nil, true
+	}
 	return struct{}{}, true
 }
 func (p *provider) Release(core.Ammo) {}
@@ -146,6 +155,7 @@ type gun struct {
 	w        *world
 	sleep    time.Duration
 	failBind func() // non-nil: Bind fails
+	slowBind time.Duration
 }
 
 var errBind = errors.New("gun bind failure (injected)")
@@ -154,6 +164,9 @@ func (g *gun) Bind(_ core.Aggregator, deps core.GunDeps) error {
 	if g.failBind != nil {
 		g.failBind()
 		return errBind
+	}
+	if g.slowBind > 0 {
+		time.Sleep(g.slowBind)
 	}
 	now := time.Now()
 	g.w.mu.Lock()
@@ -488,6 +501,27 @@ func runIstep(f []string) string {
 var errFactory = errors.New("gun factory failure (injected)")
 var errSchedFactory = errors.New("rps schedule factory failure (injected)")
 
+// A field: "<n>" | "n<n>" | "d"; returns items (-1: never runs out), nil-valued items, real Dummy provider
+func parseAmmo(f string) (items int, nilAmmo, dummy bool) {
+	if f == "d" {
+		return -1, true, true
+	}
+	if strings.HasPrefix(f, "n") {
+		nilAmmo = true
+		f = f[1:]
+	}
+	items, _ = strconv.Atoi(f)
+	return
+}
+
+// slow field: "0" | "g<ms>" | "b<ms>"
+func parseSlow(f string) (mode byte, d time.Duration) {
+	if len(f) < 2 || (f[0] != 'g' && f[0] != 'b') {
+		return 0, 0
+	}
+	return f[0], ms(f[1:])
+}
+
 // failgun field: "k" | "b<k>" | "s<k>"
 func parseFail(f string) (mode byte, k int) {
 	mode = 'g'
@@ -502,15 +536,24 @@ func parseFail(f string) (mode byte, k int) {
 func runStart(f []string) string {
 	perInst := f[1] == "1"
 	T, _ := strconv.Atoi(f[2])
-	A, _ := strconv.Atoi(f[4])
+	A, nilAmmo, dummy := parseAmmo(f[4])
 	shootUs, _ := strconv.Atoi(f[7])
+	var slowMode byte
+	var slowDur time.Duration
+	if len(f) > 11 {
+		slowMode, slowDur = parseSlow(f[11])
+	}
 	cancelMs, _ := strconv.Atoi(f[8])
 	failMode, failGun := parseFail(f[9])
 	provRun, _ := strconv.Atoi(f[10])
 
 	w := &world{}
 	cc := &causeClock{}
-	prov := &provider{left: A, cause: cc, runMode: provRun}
+	prov := &provider{left: A, cause: cc, runMode: provRun, nilAmmo: nilAmmo}
+	var coreProv core.Provider = prov
+	if dummy {
+		coreProv = coreprovider.Dummy{}
+	}
 	ag := &aggr{}
 	var rpsFin, rpsFalse, failed atomic.Bool
 	var gunCalls, schedCalls atomic.Int64
@@ -524,11 +567,19 @@ func runStart(f []string) string {
 	st := &startSched{inner: buildSched(f[6])}
 	conf := engine.InstancePoolConfig{
 		ID:         "p",
-		Provider:   prov,
+		Provider:   coreProv,
 		Aggregator: ag,
 		NewGun: func() (core.Gun, error) {
 			k := gunCalls.Add(1)
 			g := &gun{w: w, sleep: time.Duration(shootUs) * time.Microsecond}
+			if k == 2 { // the first instance (call 1 is the warm-up gun)
+				switch slowMode {
+				case 'g':
+					time.Sleep(slowDur)
+				case 'b':
+					g.slowBind = slowDur
+				}
+			}
 			if failGun > 0 && int(k) == failGun {
 				switch failMode {
 				case 'g':
@@ -642,7 +693,7 @@ func runStart(f []string) string {
 			tokens = T * started
 		}
 		want := tokens
-		if A < want {
+		if A >= 0 && A < want {
 			want = A
 		}
 		conserved = vh.B(int(w.shots.Load()+ag.discarded.Load()) == want)
@@ -670,7 +721,7 @@ func runCase(c string) string {
 	switch {
 	case f[0] == "istep" && len(f) == 5:
 		return runIstep(f)
-	case f[0] == "start" && len(f) == 11:
+	case f[0] == "start" && (len(f) == 11 || len(f) == 12):
 		return runStart(f)
 	case f[0] == "drain" && len(f) == 2:
 		return runDrain(f)
@@ -786,9 +837,37 @@ func gen(r *vh.Rand, tier string) []string {
 		perInst := r.Bool()
 		var T, A, shoot, cancelMs int
 		failGun := "0"
+		slow := "0"
+		unlimitedAmmo := false // the case does not depend on the ammo running out: the real Dummy provider fits
 		var rps string
 		shoot = r.PickInt([]int{0, 100, 500})
-		switch r.Intn(10) {
+		switch r.Intn(12) {
+		case 10, 11: // the first instance is slow to create (synchronous in the start loop): the tokens behind it
+			// are late by D; the profile then pauses for P: shorter than D (token already due), between D and
+			// 2D (due within the lateness), longer than 2D
+			D := r.PickInt([]int{10, 20, 40})
+			P := r.PickInt([]int{D / 2, D + D/4, D + D/2, 2*D - D/5, 3 * D})
+			switch r.Intn(4) {
+			case 0:
+				st = fmt.Sprintf("once:%d+const:0:%d+once:%d", r.Range(2, 4), P, r.Range(1, 3))
+			case 1:
+				st = fmt.Sprintf("istep:%d:%d:%d:%d", r.Range(2, 3), r.Range(4, 9), r.Range(1, 2), P)
+			case 2: // a dense ramp behind the late burst
+				st = fmt.Sprintf("once:%d+const:0:%d+const:%d:%d", r.Range(2, 3), P, r.PickInt([]int{100, 200}), r.PickInt([]int{20, 40}))
+			default:
+				st = fmt.Sprintf("once:%d+const:0:%d+once:1+const:0:%d+once:%d", r.Range(2, 3), P, r.PickInt([]int{D / 2, D, 2 * D}), r.Range(1, 2))
+			}
+			K = startupCount(st)
+			slow = fmt.Sprintf("%s%d", r.Pick([]string{"g", "b"}), D)
+			if perInst {
+				T = r.Range(1, 5)
+				rps = fmt.Sprintf("once:%d", T)
+			} else {
+				T = 60
+				rps = "const:200:300"
+			}
+			A = 100000
+			unlimitedAmmo = true
 		case 9: // an instance after the first cannot be created at once, the startup profile still has tokens for 300 ms
 			st = fmt.Sprintf("once:%d+const:100:300", r.Range(2, 4))
 			K = startupCount(st)
@@ -846,6 +925,7 @@ func gen(r *vh.Rand, tier string) []string {
 				rps = "const:200:200"
 			}
 			A = 100000
+			unlimitedAmmo = true
 		case 2: // ammo runs out while instances are still being started
 			T = 1000
 			rps = "once:1000"
@@ -873,7 +953,21 @@ func gen(r *vh.Rand, tier string) []string {
 			failGun = genFail(r, perInst, 1, K+2)
 		}
 		provRun := r.PickInt([]int{0, 0, 1, 1, 2})
-		out = append(out, fmt.Sprintf("start %s %d %s %d %d %s %d %d %s %d", vh.B(perInst), T, rps, A, K, st, shoot, cancelMs, failGun, provRun))
+		// the value of an ammo item is the provider's business: providers for guns that need no ammo hand out
+		// nil items ("n<A>": A of them; "d": the registered dummy provider, which never runs out)
+		ammo := strconv.Itoa(A)
+		switch r.Intn(4) {
+		case 0:
+			ammo = "n" + ammo
+		case 1:
+			if unlimitedAmmo {
+				ammo = "d"
+			}
+		}
+		if slow == "0" && r.Chance(1, 10) {
+			slow = fmt.Sprintf("%s%d", r.Pick([]string{"g", "b"}), r.PickInt([]int{5, 15}))
+		}
+		out = append(out, fmt.Sprintf("start %s %d %s %s %d %s %d %d %s %d %s", vh.B(perInst), T, rps, ammo, K, st, shoot, cancelMs, failGun, provRun, slow))
 	}
 	return out
 }
